@@ -48,7 +48,9 @@ def cmdValidate (q mc msg impl : String) : Result :=
   match parseQuestion q, mc.toNat?, parseMessage msg with
   | some q, some mc, some m =>
     let r := validateNameserverResponse q m mc
-    let o := match parseNsResp impl with
+    let o := if impl == "hang" then "fail:C10:upstream-alias-loop-hangs,fail:C08:filter-does-not-terminate,fail:C06:filter-does-not-terminate"
+      else if impl == "panic" then "fail:C08:filter-panicked,fail:C06:filter-panicked"
+      else match parseNsResp impl with
       | none => "fail:C06:unparsable"
       | some out => match USpec.checkValidated q mc m out with
         | none => "ok"
